@@ -157,6 +157,20 @@ theorem skipCtx_siblings (ctx : SkipContext) (i : Item) (is : List Item) (attrs 
     (visitItem ctx (.mk attrs ch)).2.head? = some (ctx.updateWithAttrs attrs) :=
   ⟨visitItems_cons ctx i is, by simp [visitItem]⟩
 
+/-- Same-name nesting (seeded change c04e): an inner item that lists a name again does not take it from the
+enclosing item when it ends.  Whatever the inner item's attributes and contents, the items after it inside
+the enclosing item are visited under the enclosing item's context, in which the name is still skipped. -/
+theorem skipCtx_relist_keeps_outer (ctx : SkipContext) (outer inner : List Attr) (ch rest : List Item) (n : Name)
+    (h : skipMacro (ctx.updateWithAttrs outer) n = true) :
+    skipMacro (visitItem (ctx.updateWithAttrs outer) (.mk inner ch)).1 n = true ∧
+    (visitItems (ctx.updateWithAttrs outer) (.mk inner ch :: rest)).2 =
+      (visitItem (ctx.updateWithAttrs outer) (.mk inner ch)).2 ++ (visitItems (ctx.updateWithAttrs outer) rest).2 := by
+  refine ⟨?_, (skipCtx_siblings _ _ _ [] []).1⟩
+  rw [(skipCtx_restore _ (.mk inner ch) []).1]; exact h
+
+/-- the hypothesis is satisfiable: the name comes from `skip_macro_invocations` (the file's starting context) -/
+example : skipMacro ((⟨.values [['m']], .values []⟩ : SkipContext).updateWithAttrs []) ['m'] = true := by decide
+
 /-- The macro names skipped at the start of *any* file of a crate are: `skip_macro_invocations`
 of the configuration and the `rustfmt::skip::macros(..)` of the crate root's inner attributes.
 The formula has no other input: the inner attributes of an out-of-line module file and the outer
